@@ -34,9 +34,73 @@ import (
 
 var c17Atoms = []string{"*", "*", "*/5", "0", "1", "59", "60", "H", "H/3", "H(1-5)", "H(5-1)", "H(5-4)", "H(50-10)", "H(7-1)", "H(1-7)", "H(6-7)", "H(12-1)", "H(DEC-JAN)", "H(SAT-SUN)", "H(0-7)", "H(5-1)/2", "?", "L", "1W", "MON", "JAN", "1-5", "5-1", "1,2", "*/0", "0/15", "2#1", "x", "-1", "99", "1-", "@hourly", "@daily", "@every 5m", "1/0", "H/0", "LW", "15W", "6L", "*/60", "2040", "1970", "2100", "7", "0-7", "SUN-SAT", "1-31", "*/31", "12", "0,30"}
 
+// c17HashedRangeLine builds an otherwise unremarkable line of 5, 6 or 7 fields with one hashed range in a field it is
+// legal in - numeric, or spelled with month / weekday names in the month / day-of-week field - half of them reversed
+// (beginning beyond end; Sunday as 7 counts as 0). Reversed ones must be refused by admission: cronexpr does not
+// check them, and what it derives from them panics, never matches or makes Next spin (the fix of b94a737).
+func c17HashedRangeLine(r *rand.Rand, quartz bool) string {
+	n := 5 + r.Intn(3)
+	f := make([]string, n)
+	for i := range f {
+		f[i] = "*"
+	}
+	off := 0
+	if n == 7 {
+		off = 1
+		f[0] = []string{"0", "*", "30"}[r.Intn(3)]
+	}
+	if n >= 6 {
+		f[n-1] = []string{"*", "2040", "2040-2041"}[r.Intn(3)]
+	}
+	f[off] = []string{"0", "*/10", "5"}[r.Intn(3)]
+	months := []string{"JAN", "FEB", "MAR", "APR", "MAY", "JUN", "JUL", "AUG", "SEP", "OCT", "NOV", "DEC"}
+	days := []string{"SUN", "MON", "TUE", "WED", "THU", "FRI", "SAT"}
+	pair := func(lo, hi int, names []string, base int) string {
+		a, b := lo+r.Intn(hi-lo+1), lo+r.Intn(hi-lo+1)
+		if a > b {
+			a, b = b, a
+		}
+		if r.Intn(2) == 0 && a != b {
+			a, b = b, a // reversed
+		}
+		if names != nil && r.Intn(2) == 0 {
+			return fmt.Sprintf("H(%s-%s)", names[a-base], names[b-base])
+		}
+		return fmt.Sprintf("H(%d-%d)", a, b)
+	}
+	switch r.Intn(7) {
+	case 5:
+		// hashed steps: whether cronexpr accepts them in a field whose minimum is 1 depends on the hash ID
+		f[off+2] = fmt.Sprintf("H/%d", 2+r.Intn(27))
+	case 6:
+		f[off+3] = fmt.Sprintf("H/%d", 2+r.Intn(11))
+	case 0:
+		f[off] = pair(0, 59, nil, 0)
+	case 1:
+		f[off+1] = pair(0, 23, nil, 0)
+	case 2:
+		f[off+2] = pair(1, 28, nil, 0)
+	case 3:
+		f[off+3] = pair(1, 12, months, 1)
+	default:
+		if quartz {
+			f[off+2] = "?"
+			f[off+4] = pair(1, 7, nil, 0)
+		} else if r.Intn(3) == 0 {
+			f[off+4] = fmt.Sprintf("H(%d-7)", r.Intn(7)) // ... to Sunday written as 7
+		} else {
+			f[off+4] = pair(0, 6, days, 0)
+		}
+	}
+	return strings.Join(f, " ")
+}
+
 func c17Cronish(r *rand.Rand, quartz, allowH bool) string {
 	if r.Intn(3) == 0 {
 		return genExpr(r, quartz, allowH) // well-formed by construction
+	}
+	if allowH && r.Intn(5) == 0 {
+		return c17HashedRangeLine(r, quartz)
 	}
 	n := []int{1, 4, 5, 5, 5, 6, 6, 7, 7, 8}[r.Intn(10)]
 	var f []string
@@ -209,7 +273,19 @@ func c17Accepted(i int, r *rand.Rand, e *c16Env, g cronConfigGen, res *core.Resu
 	}
 	raw := c17GenJobConfig(r, fmt.Sprintf("some.cfg-%d", i), g.Format == "quartz", g.hashNames())
 	res.Evaluations++
-	jc, ok := e.admitJobConfig(raw, nil)
+	// one third arrive as an update of an existing JobConfig with a plain schedule: what an update may
+	// turn a JobConfig into is bound by the same implication as what may be created
+	var old *execution.JobConfig
+	if r.Intn(3) == 0 {
+		plain := raw.DeepCopy()
+		plain.Spec.Schedule = &execution.ScheduleSpec{Cron: &execution.CronSchedule{Expression: "0 * * * *"}}
+		if o, ok := e.admitJobConfig(plain, nil); ok {
+			old = o
+			old.UID = types.UID(fmt.Sprintf("uid-%d", i))
+			res.Count("jobconfig_update_requests", 1)
+		}
+	}
+	jc, ok := e.admitJobConfig(raw, old)
 	if !ok {
 		res.Count("jobconfigs_rejected", 1)
 		return
